@@ -266,6 +266,9 @@ func udpAddr(port int) *net.UDPAddr { return &net.UDPAddr{IP: net.IPv4(127, 0, 0
 func (e *env) streamLink(ep *epCfg, c *world.Conn, name string) *link {
 	l := e.newLink(ep, name)
 	l.conn = c
+	if e.peerNoRead && l.id%2 == 1 {
+		return l // this peer never reads: the node's writes fill the buffer and block
+	}
 	dsim.Go("peer-rx", l.rxLoop)
 	return l
 }
